@@ -297,11 +297,18 @@ class TermAlg:
         return ("if", c, then_thunk(), else_thunk())
 
     def reduce(self, op, bounds, body):
+        # a reduction over a concretely empty range is its identity element (whoever builds it: a zero-size NumPy
+        # reduction folded by the reference, or a Reduce node with bounds (0, 0))
+        if op in _RED_IDENT and any(is_plain_const(lo) and is_plain_const(hi) and lo >= hi for lo, hi in bounds):
+            return _RED_IDENT[op]
         return Red(op, bounds, body)
 
     # -- equality ----------------------------------------------------------
     def eq(self, a, b, sk: Skolems):
         return teq(a, b, sk)
+
+
+_RED_IDENT = {"sum": 0, "product": 1, "prod": 1, "all": True, "any": False}
 
 
 def alias_map(data):
